@@ -468,6 +468,12 @@ def _push_not(e: ast.expr) -> ast.expr:
         t = type(e.ops[0])
         if t in swap:
             return ast.Compare(left=e.left, ops=[swap[t]()], comparators=e.comparators)
+    if (isinstance(e, ast.Call) and isinstance(e.func, ast.Name) and e.func.id in ("all", "any") and len(e.args) == 1 and not e.keywords
+            and isinstance(e.args[0], (ast.GeneratorExp, ast.ListComp))):
+        # not all(P for ..) == any(not P for ..)
+        g = e.args[0]
+        inner = type(g)(elt=_push_not(g.elt), generators=g.generators)
+        return ast.Call(func=ast.Name(id="any" if e.func.id == "all" else "all", ctx=ast.Load()), args=[inner], keywords=[])
     return ast.UnaryOp(op=ast.Not(), operand=e)
 
 
@@ -999,6 +1005,10 @@ class _ExprCanon(ast.NodeTransformer):
                 n.args = [a.func.value]
             if isinstance(a, (ast.List, ast.ListComp)) or (isinstance(a, ast.Call) and isinstance(a.func, ast.Name) and a.func.id in LIST_MAKERS):
                 pass  # list(list(x)) is a copy of a fresh list: same value
+        if isinstance(n.func, ast.Name) and n.func.id in ("sorted", "set", "list", "tuple", "sum", "max", "min", "any", "all") and len(n.args) >= 1:
+            a = n.args[0]
+            if isinstance(a, ast.Call) and isinstance(a.func, ast.Name) and a.func.id == "list" and len(a.args) == 1 and not a.keywords and n.func.id != "list":
+                n.args = [a.args[0]] + n.args[1:]  # the copy is consumed at once
         if isinstance(n.func, ast.Name) and n.func.id == "len" and len(n.args) == 1:
             a = n.args[0]
             # len(list(set(x))) == len(set(x))
@@ -1142,17 +1152,19 @@ def expressions(fn):
     for owner, f, stmts in _blocks(fn):
         new: List[ast.stmt] = []
         for st in stmts:
-            if isinstance(st, ast.Assign) and len(st.targets) == 1 and isinstance(st.targets[0], ast.Tuple) and all(isinstance(t, ast.Name) for t in st.targets[0].elts):
-                names = [t.id for t in st.targets[0].elts]
+            if isinstance(st, ast.Assign) and len(st.targets) == 1 and isinstance(st.targets[0], ast.Tuple) and not any(isinstance(t, ast.Starred) for t in st.targets[0].elts):
+                tgts = st.targets[0].elts
+                names = [x.id for t in tgts for x in ast.walk(t) if isinstance(x, ast.Name)]
+                only_names = all(isinstance(x, (ast.Name, ast.Tuple)) for t in tgts for x in ast.walk(t) if not isinstance(x, ast.expr_context))
                 v = st.value
                 vals = None
-                if isinstance(v, ast.Tuple) and len(v.elts) == len(names):
+                if isinstance(v, ast.Tuple) and len(v.elts) == len(tgts):
                     vals = v.elts
-                elif isinstance(v, ast.BinOp) and isinstance(v.op, ast.Mult) and isinstance(v.left, ast.Tuple) and len(v.left.elts) == 1 and isinstance(v.left.elts[0], ast.Constant) and isinstance(v.right, ast.Constant) and v.right.value == len(names):
-                    vals = [copy.deepcopy(v.left.elts[0]) for _ in names]
-                if vals is not None and not any(set(names) & _names_loaded(x) for x in vals) and not any(_impure(x) for x in vals):
-                    for nm, x in zip(names, vals):
-                        new.append(ast.Assign(targets=[ast.Name(id=nm, ctx=ast.Store())], value=x))
+                elif isinstance(v, ast.BinOp) and isinstance(v.op, ast.Mult) and isinstance(v.left, ast.Tuple) and len(v.left.elts) == 1 and isinstance(v.left.elts[0], ast.Constant) and isinstance(v.right, ast.Constant) and v.right.value == len(tgts):
+                    vals = [copy.deepcopy(v.left.elts[0]) for _ in tgts]
+                if only_names and vals is not None and not any(set(names) & _names_loaded(x) for x in vals) and not any(_impure(x) for x in vals):
+                    for t, x in zip(tgts, vals):
+                        new.append(ast.Assign(targets=[t], value=x))
                     continue
             new.append(st)
         setattr(owner, f, new)
@@ -1283,11 +1295,24 @@ def inline_temporaries(fn):
                 if v in params or v in nested_free or len(stores.get(v, [])) != 1:
                     continue
                 rhs = st.value
-                if _impure(rhs) or isinstance(rhs, (ast.Lambda,)):
+                if isinstance(rhs, (ast.Lambda,)):
                     continue
                 uses = loads.get(v, [])
                 if not uses:
                     continue
+                if _impure(rhs):
+                    # an effectful call bound to a name that is used exactly once, in the very next
+                    # statement, where it is the only effectful thing: `t = f(x) ; return g(t)`
+                    nxt = stmts[idx + 1] if idx + 1 < len(stmts) else None
+                    if not (len(uses) == 1 and nxt is not None and stmt_of.get(id(uses[0])) is nxt and isinstance(nxt, (ast.Assign, ast.Return, ast.Expr))):
+                        continue
+                    probe = copy.deepcopy(nxt)
+                    if _impure(probe) or any(isinstance(x, (ast.ListComp, ast.DictComp, ast.SetComp, ast.GeneratorExp, ast.Lambda, ast.IfExp, ast.BoolOp)) for x in ast.walk(nxt)):
+                        continue
+                    _replace_node(fn, uses[0], copy.deepcopy(rhs))
+                    stmts.pop(idx)
+                    done = True
+                    break
                 # the variable itself is never mutated / used as a store base
                 mutated = False
                 rebinding = False
@@ -1725,7 +1750,7 @@ def canonical_names(fn):
 
     class _M(ast.NodeTransformer):
         def visit_Name(self, n):
-            if n.id in local_names:
+            if n.id in local_names and n.id != "_THIS_":
                 return ast.Name(id="_", ctx=n.ctx)
             return n
 
@@ -1734,8 +1759,29 @@ def canonical_names(fn):
                 n.arg = "_"
             return n
 
+    top_masked = None
+
     def masked_key(st):
-        return _dump(_M().visit(copy.deepcopy(st)))
+        nonlocal top_masked
+        k = _dump(_M().visit(copy.deepcopy(st)))
+        if isinstance(st, ast.Assign) and len(st.targets) == 1 and isinstance(st.targets[0], ast.Name) and st.targets[0].id in local_names:
+            # identical-looking definitions (a = {} ; b = {}) are told apart by how the name is used
+            nm = st.targets[0].id
+            if top_masked is None:
+                top_masked = []
+                for n in _walk_no_nested(fn):
+                    if isinstance(n, (ast.Expr, ast.Assign, ast.AugAssign, ast.Return)):
+                        top_masked.append(({x.id for x in ast.walk(n) if isinstance(x, ast.Name)}, n))
+            sig = []
+            for names, n in top_masked:
+                if nm in names and n is not st:
+                    c = copy.deepcopy(n)
+                    for x in ast.walk(c):
+                        if isinstance(x, ast.Name) and x.id == nm:
+                            x.id = "_THIS_"
+                    sig.append(_dump(_M().visit(c)))
+            k = k + "|" + "|".join(sorted(sig))
+        return k
 
     sort_independent(fn, masked_key)
     mapping: Dict[str, str] = {}
